@@ -58,6 +58,17 @@ func c20Package(rng *rand.Rand, idx int) rcase {
 			resp.Content, resp.Schema = "application/octet-stream", &dialect.Schema{Type: "string", Format: "binary"}
 		}
 		o := &dialect.Op{Method: []string{"GET", "POST", "PUT"}[rng.Intn(3)], Responses: []dialect.Response{resp}}
+		if oi == 1 {
+			// a oneOf request body whose variants overlap: every Group document also fits User (a decoder that remembers which
+			// variant another request chose would hand this request the wrong one)
+			o.Method = "POST"
+			str := &dialect.Schema{Type: "string"}
+			sp.CompSchemas = append(sp.CompSchemas,
+				dialect.Prop{Name: "Group", Schema: &dialect.Schema{Type: "object", Required: []string{"members", "name"}, Props: []dialect.Prop{{Name: "members", Schema: &dialect.Schema{Type: "array", Items: str}}, {Name: "name", Schema: str}}}},
+				dialect.Prop{Name: "User", Schema: &dialect.Schema{Type: "object", Required: []string{"name"}, Props: []dialect.Prop{{Name: "name", Schema: str}}}},
+				dialect.Prop{Name: "EitherBody", Schema: &dialect.Schema{OneOf: []*dialect.Schema{{Ref: "Group"}, {Ref: "User"}}}})
+			o.Body = &dialect.Body{Content: "application/json", Schema: &dialect.Schema{Ref: "EitherBody"}, Required: true}
+		}
 		for k := 0; k < 1+rng.Intn(4); k++ {
 			in := []string{"query", "query", "header"}[rng.Intn(3)]
 			sc := paramSchemas[rng.Intn(len(paramSchemas))]()
@@ -69,7 +80,7 @@ func c20Package(rng *rand.Rand, idx int) rcase {
 			}
 			o.Params = append(o.Params, dialect.Param{Name: name, In: in, Required: rng.Intn(2) == 0, Schema: sc})
 		}
-		if o.Method != "GET" && rng.Intn(3) != 0 {
+		if o.Method != "GET" && o.Body == nil && rng.Intn(3) != 0 {
 			body := g.object(2, false) // (no embedded members with additionalProperties: D28 is not this property's business)
 			if rng.Intn(2) == 0 {
 				body.Ref = g.name()
